@@ -59,6 +59,11 @@ type scnPool struct {
 type scnPat struct {
 	pat string
 	set []int
+	// anch: the pattern is anchored at the start of the name (literal prefix, '?', classes,
+	// wildcards in the middle).  The element scans apply it to the element; SCAN/ADVSCAN
+	// apply a pattern to "table:key" (the code and the server's own tests do), so for key
+	// spaces the driver sends table + ":" + pattern, and only for plain ASCII table names
+	anch bool
 }
 
 const scnUpper = "\xff\xff\xff\xff\xff"
@@ -70,30 +75,37 @@ func scnBuildPools(longLen int) []scnPool {
 	return []scnPool{
 		// 0 plain
 		{names: [scnNPos]string{"a", "b", "c", "d", "e", "f"}, prefixFree: true,
-			pats: []scnPat{{"*[a-c]", []int{1, 2, 3}}, {"*e", []int{5}}, {"*", []int{1, 2, 3, 4, 5, 6}}, {"*z", nil}}},
+			pats: []scnPat{{"*[a-c]", []int{1, 2, 3}, false}, {"*e", []int{5}, false}, {"*", []int{1, 2, 3, 4, 5, 6}, false}, {"*z", nil, false},
+				{"[a-c]", []int{1, 2, 3}, true}, {"?", []int{1, 2, 3, 4, 5, 6}, true}, {"c", []int{3}, true}, {"c*", []int{3}, true}, {"a", []int{1}, true}}},
 		// 1 prefix chain around the separators
 		{names: [scnNPos]string{"k", "k\x00", "k\x00\x00", "k:", "k:f", "k;"},
-			pats:    []scnPat{{"*k", []int{1}}, {"*f", []int{5}}, {"*;", []int{6}}},
-			nulPats: []scnPat{{"*k\x00", []int{2}}, {"*\x00", []int{2, 3}}}},
+			pats:    []scnPat{{"*k", []int{1}, false}, {"*f", []int{5}, false}, {"*;", []int{6}, false}},
+			nulPats: []scnPat{{"*k\x00", []int{2}, false}, {"*\x00", []int{2, 3}, false}}},
 		// 2 0x00 / 0xff
 		{names: [scnNPos]string{"\x00", "\x00\xff", "\x01", "\xfe", "\xff", "\xff\xff"},
-			pats: []scnPat{{"*\x01", []int{3}}}},
+			pats: []scnPat{{"*\x01", []int{3}, false}}},
 		// 3 separators inside keys (a key "t::a"-style: the table is what precedes the FIRST ':')
 		{names: [scnNPos]string{":", "::", ":a", "a:", "a::", "a:b"},
-			pats: []scnPat{{"*a", []int{3}}, {"*b", []int{6}}}},
+			pats: []scnPat{{"*a", []int{3}, false}, {"*b", []int{6}, false}}},
 		// 4 the length bytes of a neighbour
 		{names: [scnNPos]string{"\x00\x01", "\x00\x01a", "\x00\x02", "\x01", "\x01\x00", "\x02"},
-			pats: []scnPat{{"*a", []int{2}}, {"*\x02", []int{3, 6}}}},
+			pats: []scnPat{{"*a", []int{2}, false}, {"*\x02", []int{3, 6}, false}}},
 		// 5 long names with a shared 9 900-byte prefix (close to the key size limit)
 		{names: [scnNPos]string{scnLong + "a", scnLong + "a\x00", scnLong + "b", scnLong + "b:", scnLong + "c", scnLong + "d"},
-			pats: []scnPat{{"*xb", []int{3}}, {"*d", []int{6}}}},
+			pats: []scnPat{{"*xb", []int{3}, false}, {"*d", []int{6}, false}}},
 		// 6 binary, prefix-free
 		{names: [scnNPos]string{"\x00\x01", "\x00\xff", "a\x00b", "a\x01", "a\xffz", "\xff\x00"}, prefixFree: true,
-			pats:    []scnPat{{"*b", []int{3}}, {"*z", []int{5}}},
-			nulPats: []scnPat{{"*\x00b", []int{3}}, {"*\x00", nil}}},
+			pats:    []scnPat{{"*b", []int{3}, false}, {"*z", []int{5}, false}},
+			nulPats: []scnPat{{"*\x00b", []int{3}, false}, {"*\x00", nil, false}}},
 		// 7 long, prefix-free
 		{names: [scnNPos]string{scnLong + "a", scnLong + "b", scnLong + "c\x00", scnLong + "d", scnLong + "e\xff", scnLong + "f"}, prefixFree: true,
-			pats: []scnPat{{"*xb", []int{2}}, {"*f", []int{6}}}},
+			pats: []scnPat{{"*xb", []int{2}, false}, {"*f", []int{6}, false}}},
+		// 8 a key equal to a literal pattern prefix, and its extensions
+		{names: [scnNPos]string{"u", "us", "user", "user1", "userx", "v"},
+			pats: []scnPat{{"user*", []int{3, 4, 5}, true}, {"user?", []int{4, 5}, true}, {"us*r*", []int{3, 4, 5}, true},
+				{"u[s-t]*", []int{2, 3, 4, 5}, true}, {"user[0-9]", []int{4}, true}, {"u*x", []int{5}, true}, {"u", []int{1}, true},
+				{"user", []int{3}, true}, {"*ser*", []int{3, 4, 5}, false}, {"v*", []int{6}, true}, {"[u-v]", []int{1, 6}, true},
+				{"u*", []int{1, 2, 3, 4, 5}, true}, {"us??", []int{3}, true}}},
 	}
 }
 
@@ -284,6 +296,7 @@ type scnDrv struct {
 	coll                                 [5][3][scnNPos]map[int]bool
 	nIter, nPage, nWrite, nForeign, nErr int
 	withMatch, revIters, concIters       int
+	anchored                             int
 	revEmpty, nulPat                     bool
 }
 
@@ -618,7 +631,19 @@ func (d *scnDrv) iterate(sp scnSpace, cur, cnt int, rev bool, pat *scnPat, concu
 			m = []int{}
 		}
 		ps = pat.pat
+		if pat.anch && sp.k == 0 {
+			t := d.tabs[sp.t]
+			for i := 0; i < len(t); i++ {
+				if t[i] < 0x20 || t[i] > 0x7e || strings.IndexByte("*?[]{}\\", t[i]) >= 0 {
+					return // the table name cannot be written into a pattern literally
+				}
+			}
+			ps = t + ":" + ps
+		}
 		d.withMatch++
+		if pat.anch {
+			d.anchored++
+		}
 	}
 	mc := cnt
 	if cnt == 0 {
@@ -702,6 +727,70 @@ func (d *scnDrv) scanSpace(sp scnSpace, thin int) {
 	}
 }
 
+// bigCount: COUNT values around the server's batch limit (5 000) on a collection that is
+// larger than the limit.  Elements are "00001".."0nnnn", position = number; one world, a few
+// iterations; validated with a trace configuration whose pool is that large.
+func scnBigCount(wd *scnWorld, tw *trace.Writer, n int) (iters, pages int) {
+	nd := wd.nd
+	for base := 0; base < n; base += 2500 {
+		args := []string{"sadd", "t:big"}
+		for i := base + 1; i <= base+2500 && i <= n; i++ {
+			args = append(args, fmt.Sprintf("%05d", i))
+		}
+		wd.apply(args...)
+	}
+	pop := make([]int, n)
+	for i := range pop {
+		pop[i] = i + 1
+	}
+	tw.Emit(trace.M{"ev": "reset"})
+	for _, cnt := range []int{5000, 6000} {
+		for _, rev := range []bool{false, true} {
+			start, cursor, name := 0, "", "sscan"
+			if rev {
+				start, cursor, name = n+1, "99999", "srevscan"
+			}
+			tw.Emit(trace.M{"ev": "reset"})
+			tw.Emit(trace.M{"ev": "begin", "pop": pop, "cur": start, "cnt": cnt, "rev": rev, "m": pop, "pn": false, "sp": "bigcount:set"})
+			iters++
+			capped := true
+			for p := 0; p < 12; p++ {
+				conn := &scnConn{}
+				nd.VerifScanColl(conn, scnCmd(name, "default:t:big", cursor, "count", strconv.Itoa(cnt)))
+				els := []int{}
+				nxt := 0
+				errs := ""
+				if len(conn.errs) > 0 {
+					errs = conn.errs[0]
+				} else if len(conn.bulks) >= 1 {
+					conv := func(b []byte) int {
+						v, err := strconv.Atoi(string(b))
+						if err != nil || len(b) != 5 {
+							return -1
+						}
+						return v
+					}
+					if len(conn.bulks[0]) > 0 {
+						nxt = conv(conn.bulks[0])
+					}
+					for _, b := range conn.bulks[1:] {
+						els = append(els, conv(b))
+					}
+					cursor = string(conn.bulks[0])
+				}
+				tw.Emit(trace.M{"ev": "page", "els": els, "next": nxt, "err": errs})
+				pages++
+				if errs != "" || nxt == 0 {
+					capped = false
+					break
+				}
+			}
+			tw.Emit(trace.M{"ev": "end", "capped": capped})
+		}
+	}
+	return
+}
+
 func scansim(args []string) error {
 	fs := flag.NewFlagSet("scansim", flag.ExitOnError)
 	et := fs.String("eng", "pebble", "engine type: mem | pebble")
@@ -718,6 +807,7 @@ func scansim(args []string) error {
 	nulPat := fs.Bool("nulpat", true, "include MATCH patterns that contain a 0x00 byte (the model accepts an error reply or the exact subset)")
 	longLen := fs.Int("long", 9900, "length of the shared prefix of the long names")
 	plainScan := fs.Bool("plainscan", false, "include plain SCAN / REVSCAN key spaces (known finding C13-scan-cursor-table-twice)")
+	bigCount := fs.Int("bigcount", 0, "only: COUNT around the batch limit on a set of this many members")
 	collOnly := fs.Bool("collonly", false, "scan only collections (HSCAN/SSCAN/ZSCAN), no key spaces")
 	fs.Parse(args)
 	scnPools = scnBuildPools(*longLen)
@@ -743,6 +833,14 @@ func scansim(args []string) error {
 		if *et != "mem" || p.prefixFree {
 			usable = append(usable, i)
 		}
+	}
+	if *bigCount > 0 {
+		it, pg := scnBigCount(wd, tws[0], *bigCount)
+		for _, tw := range tws {
+			tw.Close()
+		}
+		summary(trace.M{"driver": "scansim", "mode": "bigcount", "eng": *et, "elements": *bigCount, "iterations": it, "pages": pg})
+		return nil
 	}
 	d := &scnDrv{wd: wd, rng: rng, revEmpty: *revEmpty, nulPat: *nulPat}
 	poolsUsed := map[int]bool{}
@@ -839,7 +937,7 @@ func scansim(args []string) error {
 		}
 	}
 	summary(trace.M{"driver": "scansim", "eng": *et, "policy": *policy, "segments": *nseg, "iterations": d.nIter,
-		"pages": d.nPage, "own_writes": d.nWrite, "foreign_writes": d.nForeign, "with_match": d.withMatch,
+		"pages": d.nPage, "own_writes": d.nWrite, "foreign_writes": d.nForeign, "with_match": d.withMatch, "anchored_match": d.anchored,
 		"reverse": d.revIters, "concurrent": d.concIters, "applied": wd.napply, "write_errors": d.nErr,
 		"panics": wd.panics, "pools": pu})
 	return nil
